@@ -502,7 +502,7 @@ fn transform_builder(ops: &[Op], m: &[usize], k: &mut Src) -> Vec<Op> {
             };
             match op {
                 Op::Barrier => Op::Barrier,
-                Op::Rejected { dup_of } => Op::Rejected { dup_of: *dup_of },
+                Op::Rejected { dup_of, unknown_dep } => Op::Rejected { dup_of: *dup_of, unknown_dep: *unknown_dep },
                 Op::Tl { reads, writes } => Op::Tl {
                     reads: permute(&reads.iter().map(|r| map_res(*r, m)).collect::<Vec<_>>(), k),
                     writes: permute(&writes.iter().map(|r| map_res(*r, m)).collect::<Vec<_>>(), k),
@@ -678,7 +678,7 @@ fn strip_noop_barriers(ops: &[Op]) -> Vec<Op> {
                 *d -= removed_before[*d];
             }
         }
-        if let Op::Rejected { dup_of } = o {
+        if let Op::Rejected { dup_of, .. } = o {
             *dup_of -= removed_before[*dup_of];
         }
     }
